@@ -44,6 +44,25 @@ class AObj:
         return f'<{self.tag or name}>'
 
 
+class AOneShot:
+    """An iterator that can be consumed once (generator expression, map, filter, zip, reversed, iter ...).  It is lazy like the
+    real thing: the elements are computed when something iterates it (errors raised by the element computation surface there).
+    The marker survives only while the value is handed on unchanged; any conversion (list(), tuple(), sorted(), a comprehension
+    over it) gives an ordinary container."""
+
+    def __init__(self, thunk) -> None:
+        self._thunk = thunk
+        self._items = None
+
+    def items(self) -> list:
+        if self._items is None:
+            self._items = list(self._thunk())
+        return self._items
+
+    def __repr__(self) -> str:
+        return '<one-shot iterator>'
+
+
 class AClass:
     def __init__(self, ref) -> None:
         self.ref = ref            # ClassInfo | ('ext', dotted)
@@ -318,6 +337,8 @@ class Interp:
         if 'BaseException' in anc:
             return AObj(ref, {'args': tuple(args)}, tag=f'exc:{name.split(".")[-1]}')
         if name in ('builtins.dict',):
+            if args and isinstance(args[0], (AOneShot, list, tuple)):
+                return dict([tuple(self._to_list(x)) for x in self._to_list(args[0])], **kwargs)
             return dict(*args, **kwargs) if not args or isinstance(args[0], dict) else TOP
         if name in ('builtins.list',):
             return self._to_list(args[0]) if args else []
@@ -327,6 +348,12 @@ class Interp:
             return tuple(self._to_list(args[0])) if args else ()
         if name == 'builtins.bool':
             return self.truth(args[0]) if args else False
+        if name == 'builtins.str':
+            if args and isinstance(args[0], (str, int)) and not isinstance(args[0], bool):
+                return str(args[0])
+            if args and isinstance(args[0], AObj):
+                return f'str({args[0]!r})'            # the text of an object is not the object (nor its .value)
+            return TOP
         if name == 'builtins.type' and len(args) == 3 and isinstance(args[2], dict):
             # type(name, bases, namespace): a class created at run time, held as an object with the namespace as attributes
             return AObj(('ext', 'created-class'), {'__name__': args[0], '__bases__': tuple(self._to_list(args[1])), **args[2]},
@@ -335,17 +362,21 @@ class Interp:
             start = args[1] if len(args) > 1 else kwargs.get('start', 0)
             return list(enumerate(self._to_list(args[0]), start))
         if name == 'builtins.zip':
-            return list(zip(*[self._to_list(a) for a in args]))
+            return AOneShot(lambda: list(zip(*[self._to_list(a) for a in args])))
         if name == 'builtins.reversed':
-            return list(reversed(self._to_list(args[0])))
+            return AOneShot(lambda a=args[0]: reversed(self._to_list(a)))
         if name == 'builtins.filter' and len(args) == 2:
-            items = self._to_list(args[1])
+            items = args[1] if isinstance(args[1], AOneShot) else self._to_list(args[1])
+            if isinstance(items, AOneShot):
+                src = items
+                if args[0] is None:
+                    return AOneShot(lambda: [x for x in src.items() if self.truth(x)])
+                return AOneShot(lambda: [x for x in src.items() if self.truth(self.call(args[0], [x], {}))])
             if args[0] is None:
-                return [x for x in items if self.truth(x)]
-            return [x for x in items if self.truth(self.call(args[0], [x], {}))]
+                return AOneShot(lambda: [x for x in items if self.truth(x)])
+            return AOneShot(lambda: [x for x in items if self.truth(self.call(args[0], [x], {}))])
         if name == 'builtins.map' and len(args) >= 2:
-            cols = [self._to_list(a) for a in args[1:]]
-            return [self.call(args[0], list(xs), {}) for xs in zip(*cols)]
+            return AOneShot(lambda: [self.call(args[0], list(xs), {}) for xs in zip(*[self._to_list(a) for a in args[1:]])])
         if name == 'builtins.frozenset':
             return frozenset(self._to_list(args[0])) if args else frozenset()
         if name == 'builtins.range' and all(isinstance(a, int) for a in args):
@@ -357,6 +388,8 @@ class Interp:
             raise AnalysisError('abstract interpretation: iteration over an unknown collection')
         if isinstance(v, (list, tuple, set, frozenset)):
             return list(v)
+        if isinstance(v, AOneShot):
+            return list(v.items())
         if isinstance(v, dict):
             return list(v.keys())
         if isinstance(v, AObj) and 'data' in v.attrs:
@@ -400,15 +433,16 @@ class Interp:
             return TOP
         if name == 'builtins.enumerate':
             return list(enumerate(self._to_list(args[0])))
-        if name == 'builtins.next' and args and isinstance(args[0], (list, tuple)):
-            # a generator expression is evaluated eagerly into a list: its first element (no consumption is modelled)
-            if args[0]:
-                return args[0][0]
+        if name == 'builtins.next' and args and isinstance(args[0], (list, tuple, AOneShot)):
+            # the first element (consumption is not modelled)
+            seq = args[0].items() if isinstance(args[0], AOneShot) else args[0]
+            if seq:
+                return seq[0]
             if len(args) > 1:
                 return args[1]
             raise ARaise('StopIteration')
         if name == 'builtins.iter' and args and isinstance(args[0], (list, tuple, set, dict)):
-            return self._to_list(args[0])
+            return AOneShot(lambda a=args[0]: self._to_list(a))
         if name == 'json.dumps' and args and not kwargs:
             def plain(x) -> bool:
                 return isinstance(x, (str, int, type(None))) or (isinstance(x, (list, tuple)) and all(plain(y) for y in x))
@@ -419,6 +453,10 @@ class Interp:
         if name == 'builtins.callable':
             return args[0] is not None and not isinstance(args[0], (str, int, bool))
         if name == 'builtins.str':
+            if args and isinstance(args[0], (str, int)) and not isinstance(args[0], bool):
+                return str(args[0])
+            if args and isinstance(args[0], AObj):
+                return f'str({args[0]!r})'            # the text of an object is not the object (nor its .value)
             return TOP
         if name == 'functools.partial':
             target = args[0]
@@ -804,6 +842,15 @@ class Interp:
                 if f is not None and f[2] is not None:
                     owner, ann, default = f
                     if isinstance(default, ast.Call) and (dotted(default.func) or '').split('.')[-1] == 'field':
+                        # dataclasses.field(default=..) / field(default_factory=..): the value a fresh instance would hold
+                        menv = {'__module__': owner.module, '__unit__': None, '__closure__': None}
+                        for kw in default.keywords:
+                            if kw.arg == 'default':
+                                obj.attrs[real] = self.eval(kw.value, menv)
+                                return obj.attrs[real]
+                            if kw.arg == 'default_factory':
+                                obj.attrs[real] = self.call(self.eval(kw.value, menv), [], {}, kw.value)
+                                return obj.attrs[real]
                         raise AnalysisError(f'abstract interpretation: field {attr} of {obj!r} not initialised')
                     return self.eval(default, {'__module__': owner.module, '__unit__': None, '__closure__': None})
                 # methods of external base classes (UserDict)
@@ -929,12 +976,14 @@ class Interp:
             return result
         if isinstance(e, ast.IfExp):
             return self.eval(e.body, env) if self.truth(self.eval(e.test, env)) else self.eval(e.orelse, env)
-        if isinstance(e, ast.Tuple):
-            return tuple(self.eval(x, env) for x in e.elts)
-        if isinstance(e, ast.List):
-            return [self.eval(x, env) for x in e.elts]
-        if isinstance(e, ast.Set):
-            return {self.eval(x, env) for x in e.elts}
+        if isinstance(e, (ast.Tuple, ast.List, ast.Set)):
+            items = []
+            for x in e.elts:
+                if isinstance(x, ast.Starred):
+                    items.extend(self._to_list(self.eval(x.value, env)))
+                else:
+                    items.append(self.eval(x, env))
+            return tuple(items) if isinstance(e, ast.Tuple) else (items if isinstance(e, ast.List) else set(items))
         if isinstance(e, ast.Dict):
             d = {}
             for k, v in zip(e.keys, e.values):
@@ -948,9 +997,19 @@ class Interp:
                     d[self.eval(k, env)] = self.eval(v, env)
             return d
         if isinstance(e, (ast.ListComp, ast.GeneratorExp, ast.SetComp)):
+            if isinstance(e, ast.GeneratorExp):
+                def thunk(e=e, env=env):
+                    acc: list = []
+                    self._comp(e, 0, env, acc)
+                    return acc
+                return AOneShot(thunk)
             out: list = []
             self._comp(e, 0, env, out)
             return out if not isinstance(e, ast.SetComp) else set(out)
+        if isinstance(e, ast.DictComp):
+            pairs: list = []
+            self._comp(e, 0, env, pairs)
+            return dict(pairs)
         if isinstance(e, ast.Subscript):
             cont = self.eval(e.value, env)
             key = self.eval(e.slice, env)
@@ -1000,6 +1059,8 @@ class Interp:
             if all(self.truth(self.eval(c, inner)) for c in gen.ifs):
                 if idx + 1 < len(e.generators):
                     self._comp(e, idx + 1, inner, out)
+                elif isinstance(e, ast.DictComp):
+                    out.append((self.eval(e.key, inner), self.eval(e.value, inner)))
                 else:
                     out.append(self.eval(e.elt, inner))
 
